@@ -115,7 +115,8 @@ def make_histories(p, rng, quick):
         band = rng.random()
         lat = rng.uniform(-90, 90) if band < 0.7 else rng.choice([-1, 1]) * rng.uniform(85, 90)
         return rng.uniform(-200, 200), lat
-    optshapes = [None, {}, {"closed_ring": False}, {"segments": 3}, {"segments": "auto", "closed_ring": True}, {"segments": None}, {"closed_ring": False, "segments": 1}]
+    optshapes = [None, {}, {"closed_ring": False}, {"segments": 3}, {"segments": "auto", "closed_ring": True}, {"segments": None}, {"closed_ring": False, "segments": 1},
+                 {"segments": 1}, {"segments": 1, "closed_ring": True}]
     h1 = []
     pool = []
     for _ in range(n1):
@@ -194,6 +195,8 @@ def make_histories(p, rng, quick):
         h3.append(["cell_to_lonlat", "%016x" % c])
         if rng.random() < (0.3 if quick else 1.0):
             h3.append(["cell_to_boundary", "%016x" % c, {"segments": 2}])
+        if rng.random() < (0.5 if quick else 1.0):
+            h3.append(["cell_to_boundary", "%016x" % c, rng.choice([{"segments": 1}, {"segments": 1, "closed_ring": False}, {"segments": 1, "closed_ring": True}])])
     for (lon, lat) in geo.frame_seeds(rng)[:: (9 if quick else 2)]:
         h3.append(["lonlat_to_cell", hx(lon), hx(lat), rng.choice([2, 3, 6, 11, 19, 29])])
     H.append(("H3", h3))
